@@ -1387,6 +1387,14 @@ theorem step_lininv (s : State) (op : Op) (h : LinInv s) (ho : OriginInv s) : Li
     · obtain ⟨a, b⟩ := setConn_sub s c (fun k => { k with isOpen := false }) (fun _ => rfl)
       exact (h.sub a b).sub_eq (Sub.of_eq rfl rfl rfl rfl rfl rfl) rfl
     · exact h
+  | connFail c =>
+    simp only [step]
+    split
+    · split
+      · obtain ⟨a, b⟩ := setConn_sub s c (fun k => { k with isOpen := false }) (fun _ => rfl)
+        exact (h.sub a b).sub_eq (Sub.of_eq rfl rfl rfl rfl rfl rfl) rfl
+      · exact h
+    · exact h
   | run => exact runAll_lininv _ s h ho
   | tick ms => exact h.sub_eq (Sub.of_eq rfl rfl rfl rfl rfl rfl) rfl
   | mark => exact h
